@@ -198,6 +198,8 @@ UNITS['c10'] = {
 UNITS['c03'] = {
     'template': 'contracts/c03.vrs',
     'mutants': [
+        ('explicit_operation_id_ignored', 'if xfer.id.is_some() { return clone_opt_string(&xfer.id); }', '', ['C03.opid.xfer_id']),
+        ('variable_segments_all_labelled_alike', 'spec::UriSegment::Variable(t) => str_to_lowercase(t.name.as_ref()),', 'spec::UriSegment::Variable(t) => root_label(),', ['C03.opid.uri_segment_label']),
         ('path_param_optional', 'parameter_data: self.prop_param_data(prop, true),', 'parameter_data: self.prop_param_data(prop, false),', ['C03.path']),
         ('variable_without_braces', '{ format_braced(&p.name) }', '{ str_to_string(p.name.as_ref()) }', ['C03.path']),
         ('path_param_skipped_for_first', 'params.push(ReferenceOr::Item(self.prop_path_param(p)));', 'if params.len() > 0 { params.push(ReferenceOr::Item(self.prop_path_param(p))); }', ['C03.path']),
@@ -320,7 +322,8 @@ PROPS = {
         'level_text': 'Deductive proof (Verus/Z3, Kani for the code domain) of three emitter invariants, for every evaluated program: response keys are 100-599 or 1XX-5XX; '
                       'a path key is the rendering of its URI path with variables as {name} and the in:path parameters of the same path item are exactly those variables, in order, each required; '
                       'a schema use is a $ref only if all_components emits a component under exactly the referenced name. '
-                      'operationId uniqueness, YAML round trip, and that every Ref in the evaluated program is in the reference table are not decided: level other.',
+                      'derived operationIds: the real method_label / uri_segment_label / xfer_id are under contract and distinct operations are shown NOT to get distinct identifiers (machine-checked collision, known finding, DESIGN 12.33); '
+                      'YAML round trip, and that every Ref in the evaluated program is in the reference table are not decided: level other.',
         'level_note': 'Trusted: IndexMap shim (ordered association list), format! strings rendered as stated, atom::Ident::{is_reference,untagged} and atom::Text::as_ref as text functions, '
                       'value_schema returns an Item (scan A2), all_paths/relation_path_item use the same rel.uri for key and parameters (scan A3), HttpStatus::Code only built in try_from (scan A4). '
                       'Assumed evaluator invariant: reference expressions name entries of the reference table (refs_closed / uri_refs_known). '
@@ -330,7 +333,7 @@ PROPS = {
                        'Not decided: operationId uniqueness (xfer_id is an iterator chain outside Verus; known duplicate get-a-b noted in DESIGN section 6), YAML round-trip (serde_yaml), '
                        'name collisions between untagged() names, evaluator invariant that every Ref has a table entry.',
         'assumptions': ['evaluator invariant refs_closed / uri_refs_known', 'variable names inside a path pairwise distinct (property hypothesis)', 'literals and names are brace-free (lexer patterns)'],
-        'not_decided': ['operationIds are unique', 'the YAML text parses back to the same document', 'every Ref(name) in the evaluated spec has an entry in spec.refs', 'collisions between untagged() component names'],
+        'not_decided': ['uniqueness of operationIds the program gives explicitly (annotation `operationId`); for DERIVED identifiers the clause is decided and fails: known finding, DESIGN 12.33', 'the YAML text parses back to the same document', 'every Ref(name) in the evaluated spec has an entry in spec.refs', 'collisions between untagged() component names'],
     },
     'C08': {
         'units': ['c08', 'c01'],
